@@ -11,6 +11,7 @@ import CookModel.Lemmas.SpansBytes
 import CookModel.Lemmas.AstBuild
 import CookModel.Lemmas.SpansUtf8
 import CookModel.Lemmas.SpansTexts
+import CookModel.Lemmas.ReportPrep
 /-
   C04  Every reported source location is in bounds, on char boundaries, faithful.
 
@@ -623,5 +624,88 @@ theorem C04_boundary_is_rust_is_char_boundary (input : List Char) (p : Nat) :
 example : ['é'].utf8Encode.data = #[0xC3, 0xA9] ∧ isContByte 0xA9 = true ∧ rustIsBoundaryByte 0xA9 = false ∧
     rustIsBoundaryByte 0xC3 = true := by decide
 example : isContByte 0xF8 = false ∧ ¬ (0xF8 : UInt8).IsUTF8FirstByte := by decide
+
+/-! ### row 6: the label preparation of `SourceReport::write` (model Side/Report.lean, tied by op `report_prep`) -/
+
+/-- **What `write_report` hands to the renderer.**  For every diagnostic of `parse` and of `parse_metadata`, of every
+    input and environment: the labels passed to `codesnake::Block::new` are the diagnostic's own labels (a
+    permutation of them), sorted by (start, end) — `sort_unstable_by_key(|l| l.0)` with `Span`'s derived order —,
+    each a valid span of the source (`start ≤ end ≤ len`, both ends on character boundaries), and the `k`-th of them
+    carries the colour `COLORS[k mod 7]` (the colour generator wraps around and never indexes its table out of
+    range). -/
+theorem C04_report_labels_prepared (env : Env) (input : Str) :
+    ∀ d, (d ∈ (parseRecipe (α := Rat) env input).diags.toList ∨ d ∈ (parseMetadata (α := Rat) env input).diags.toList) →
+    ∃ cs : List (Span × String), assignColors 0 (sortLabels d.labels) = some cs ∧
+      cs.map (·.1) = sortLabels d.labels ∧
+      (sortLabels d.labels).Perm d.labels ∧
+      (sortLabels d.labels).Pairwise (fun a b => a.start < b.start ∨ (a.start = b.start ∧ a.stop ≤ b.stop)) ∧
+      (∀ l ∈ sortLabels d.labels, SpanOK 0 input l) ∧
+      ∀ k (hk : k < cs.length), reportColors[k % 7]? = some (cs[k].2) := by
+  intro d hd
+  apply rprep_handed_over
+  rcases hd with hd | hd
+  · exact (C04_analysis_labels_ok env input).1 d hd
+  · exact (C04_analysis_meta_labels_ok env input).1 d hd
+
+/-- **The label preparation never panics and never indexes out of range**, for any diagnostic whose labels are valid
+    spans of the source — so for every diagnostic of every report of `parse` / `parse_metadata`
+    (`C04_report_prep_never_panics`).  The modelled panic sites: `COLORS[self.0]`; `idx.0[line_no]` for the lines a
+    label runs over; `debug_assert!(start.line_no <= end.line_no)`; every `&line[a..b]` that cuts a labelled piece out
+    of a line (`start.bytes..end.bytes`, `start.bytes..`, `..end.bytes`).  The result is one of: no labels (no code
+    block), block refused (`Block::new` returned `None`: the message is printed alone), or the block. -/
+theorem C04_report_prep_no_panic_of_valid_labels (src : List Char) (labels : List Span)
+    (h : ∀ l ∈ labels, SpanOK 0 src l) : ∀ site, reportDiag src labels ≠ .panic site :=
+  rprep_no_panic src labels h
+
+theorem C04_report_prep_never_panics (env : Env) (input : Str) :
+    (∀ r ∈ reportPrep input (parseRecipe (α := Rat) env input).diags.toList, ∀ site, r ≠ .panic site) ∧
+    (∀ r ∈ reportPrep input (parseMetadata (α := Rat) env input).diags.toList, ∀ site, r ≠ .panic site) := by
+  constructor
+  · intro r hr
+    simp only [reportPrep, reportOrder, List.mem_map, List.mem_append, List.mem_filter] at hr
+    obtain ⟨d, hd, rfl⟩ := hr
+    have hd' : d ∈ (parseRecipe (α := Rat) env input).diags.toList := by rcases hd with hd | hd <;> exact hd.1
+    exact rprep_no_panic input d.labels ((C04_analysis_labels_ok env input).1 d hd')
+  · intro r hr
+    simp only [reportPrep, reportOrder, List.mem_map, List.mem_append, List.mem_filter] at hr
+    obtain ⟨d, hd, rfl⟩ := hr
+    have hd' : d ∈ (parseMetadata (α := Rat) env input).diags.toList := by rcases hd with hd | hd <;> exact hd.1
+    exact rprep_no_panic input d.labels ((C04_analysis_meta_labels_ok env input).1 d hd')
+
+/-- **When the code block is shown.**  For a diagnostic with valid labels `Block::new` accepts the sorted labels iff
+    each one starts strictly after the start of the previous one and at or after its end (`LabelsApart`); two labels
+    with the same start (for instance the same span twice) or overlapping labels make it return `None`, and then the
+    report prints the message without a code block (src/error.rs:527-530) — it does not panic. -/
+theorem C04_report_block_shown_iff (src : List Char) (labels : List Span) (h : ∀ l ∈ labels, SpanOK 0 src l) :
+    blockAccepts (lineIndex src) none (sortLabels labels) = true ↔ LabelsApart none (sortLabels labels) :=
+  rprep_accepts_iff src labels h
+
+/-- the line index: every line is the slice of the source at its start offset (so line starts and ends are
+    character boundaries), line numbers are monotone in the offset, every offset up to `len` lies on a line -/
+theorem C04_report_line_index (src : List Char) :
+    (∀ p ∈ lineIndex src, SliceAt 0 src p.1 p.2) ∧
+    (∀ off, off ≤ utf8Len src → (reportLineOf (lineIndex src) off).isSome = true) ∧
+    (∀ o1 o2 m1 m2 st1 st2 t1 t2, o1 ≤ o2 → reportLineOf (lineIndex src) o1 = some (m1, st1, t1) →
+      reportLineOf (lineIndex src) o2 = some (m2, st2, t2) → m1 ≤ m2) :=
+  ⟨rprep_line_slice src, rprep_lineOf_cover src,
+   fun o1 o2 m1 m2 st1 st2 t1 t2 hle h1 h2 =>
+     rprep_lineOfGo_mono (rprep_withStarts_ok 0 (splitLines src)) 0 hle h1 h2⟩
+
+/-! non-vacuity: the label pair of "A timer cannot have a note" (`3..6`, `3..3`) is refused; a label over two
+    lines gives two pieces; a tab is shown as four spaces; a label that ends inside `é` reaches the slice panic (the
+    defect repaired in 87ff930); the eighth label gets the first colour again; the sort orders by start, then end -/
+example : blockAccepts (lineIndex "~é(x)".toList) none [⟨3, 3⟩, ⟨3, 6⟩] = false := by decide
+example : blockAccepts (lineIndex "~é(x)".toList) none [⟨0, 3⟩, ⟨3, 6⟩] = true := by decide
+example : (match labelPieces "a\nb".toList (lineIndex "a\nb".toList) ⟨0, 3⟩ "M" with
+      | .ok ps => some ps | .error _ => none) = some [⟨0, "M", ['a']⟩, ⟨1, "M", ['b']⟩] := by decide
+example : expandTabs ['a', '\t'] = "a    ".toList := by decide
+example : (match labelPieces "~é(x)".toList (lineIndex "~é(x)".toList) ⟨2, 3⟩ "M" with
+      | .ok _ => none | .error e => some e) = some "codesnake: slice of a line at label offsets" := by decide
+example : (assignColors 0 [⟨0,0⟩,⟨1,1⟩,⟨2,2⟩,⟨3,3⟩,⟨4,4⟩,⟨5,5⟩,⟨6,6⟩,⟨7,7⟩]).map (fun cs => cs.map (·.2)) =
+    some ["BrightMagenta", "BrightGreen", "BrightCyan", "BrightBlue", "BrightGreen", "BrightYellow", "BrightRed",
+      "BrightMagenta"] := by decide
+example : sortLabels [⟨4, 5⟩, ⟨0, 1⟩, ⟨0, 0⟩] = [⟨0, 0⟩, ⟨0, 1⟩, ⟨4, 5⟩] := by
+  simp [sortLabels, List.mergeSort, List.MergeSort.Internal.splitInTwo, Span.le]
+example : lineIndex "ab\n\nc".toList = [(0, ['a', 'b']), (3, []), (4, ['c'])] := by decide
 
 end Cook
